@@ -189,10 +189,17 @@ _TM_FUN = ["*self._function._value", "*self._function._preimage_count._list", "s
            "all:List(Opt(Int))"]
 # the two index structures (rules pumping / using a class): rows are created on first access and only ever rewritten in place
 _TM_IDX = ["*self._rules_using_class._list", "*self._rules_pumping_class._list", "all:List(Int)", "all:List(Tup(Int, Int))", "self.posP"]
+# everything queued or held back is the index of a stored rule
+_Q_OK = "each(self._processing_queue, lambda x: 0 <= x and x < len(self._rules))"
+_H_OK = "forall(lambda x: implies(x in self._rule_holding_extra_terms, 0 <= x and x < len(self._rules)))"
+# a rule is held back on behalf of a parent whose value lies above the gap (or has become infinite since)
+_HOLD_V = ("forall(lambda x: implies(x in self._rule_holding_extra_terms and 0 <= x and x < len(self._rules), "
+           "is_none(" + "ite(self._rules[x].parent < len(self._function._value), self._function._value[self._rules[x].parent], 0)" + ") or "
+           "val(" + "ite(self._rules[x].parent < len(self._function._value), self._function._value[self._rules[x].parent], 0)" + ") > self._current_gap[1]))")
 contract(F, "TableMethod._correct_gap", props=["C03"], aliases=FAL,
          params={"self": Obj("TableMethod")},
-         requires=["self._gap_size >= 1"],
-         ensures=[
+         requires=["self._gap_size >= 1", _Q_OK, _H_OK],
+         ensures=[_Q_OK, _H_OK,
              # the gap is the first window of _gap_size unused values
              "self._current_gap[0] == last_result('Function.preimage_gap')",
              "self._current_gap[1] == self._current_gap[0] + self._gap_size - 1",
@@ -250,7 +257,7 @@ _SROW_LEN = ("forall(lambda r: implies(0 <= r and r < len(self._shifts), len(sel
 _U_FIN = ("forall(lambda c, k: implies(0 <= c and c < len(" + _ULL + ") and 0 <= k and k < len(" + _ULL + "[c]), "
           "not is_none(self._shifts[" + _ULL + "[c][k][0]][" + _ULL + "[c][k][1]])))")
 _IDX_WF = ["wf(self._rules_using_class)", "wf(self._rules_pumping_class)", _HIST_APART, _P_ALL_OK, _P_ALL_DIST, _SROWS_DISTINCT, _SROWS_ALLOC,
-           _P_PARENT, _P_COMPLETE, _U_SOUND, _U_DIST, _SROW_LEN, _U_FIN]
+           _P_PARENT, _P_COMPLETE, _U_SOUND, _U_DIST, _SROW_LEN, _U_FIN, _Q_OK, _H_OK, _HOLD_V]
 # SHIFTS NEVER OVERESTIMATE (the soundness half of shift coherence): for a rule whose parent is finite, an infinite shift means the
 # child is infinite, and a finite shift of a finite child is at most  value(child) + declared shift - value(parent)
 _FVP = _TFV.format(k="self._rules[r].parent")
@@ -324,8 +331,9 @@ contract(F, "TableMethod.add_rule_key", props=["C03", "C11"], lenient=True, alia
          requires=[_WFKEY.format(k="rule_key")] + _TBL_INV,
          ensures=_TBL_INV + ["len(self._rules) == old(len(self._rules)) + 1", "self._rules[len(self._rules) - 1] == rule_key",
                   "forall(lambda i: implies(0 <= i and i < old(len(self._rules)), self._rules[i] == old(self._rules[i])))"],
-         # of the propagation only AssertionError (the asserts of _set_infinite) and IndexError (queue contents) are not excluded
-         may_raise=["AssertionError", "IndexError"],
+         # no exception: the propagation is proved free of exceptions (index validity of everything queued, held or recorded; finite
+         # shifts at recorded positions; rules are held back only from above the gap)
+         may_raise=[],
          # registration: once a rule with a finite parent is stored, every child position whose class is still finite is
          # recorded among the rules using that class (so that a later increase of the child reaches this rule's shift),
          # the rule is recorded among those pumping its parent, and it is queued
@@ -351,7 +359,7 @@ contract(F, "TableMethod.add_rule_key", props=["C03", "C11"], lenient=True, alia
                                        "assert rule_idx == len(self._rules) - 1", "assert " + _PUMP_LAST]},
          # (only what the loop can change is restated: function lists and the rows of rules using a class; the rest of the
          # table invariant is about locations outside the loop's frame)
-         loops={0: dict(invariant=[_NONNEG, "not is_none(" + _TFV.format(k="rule_key.parent") + ")", "wf(self._rules_using_class)", _P_COMPLETE, _SILE, _U_FIN,
+         loops={0: dict(invariant=[_NONNEG, "not is_none(" + _TFV.format(k="rule_key.parent") + ")", "wf(self._rules_using_class)", _P_COMPLETE, _SILE, _U_FIN, _HOLD_V,
                                    "forall(lambda i: implies(0 <= i and i < len(rule_key.children) and not is_none(" + _TFV.format(k="rule_key.parent") + ") and "
                                    "not is_none(" + _TFV.format(k="rule_key.children[i]") + "), not is_none(self._shifts[rule_idx][i])))",
                                    _U_SOUND,
@@ -453,7 +461,7 @@ contract(F, "ForestRuleExtractor._is_productive", props=["C11"], lenient=True, a
          requires=["self.root_label >= 0",
                    "forall(lambda i: implies(0 <= i and i < len(rule_keys), " + _WFKEY.format(k="rule_keys[i]") + "))"],
          locals={"ruledb": Obj("TableMethod")},
-         may_raise=["AssertionError", "IndexError"],     # from the propagation (see _process_queue)
+         may_raise=[],
          # the verdict is the pumping status of the root in a table that received every given key (and only those), in order
          loops={0: dict(invariant=tbl_inv("ruledb") + ["fresh(ruledb)", "len(ruledb._rules) == _i0",
                                    "forall(lambda j: implies(0 <= j and j < _i0, ruledb._rules[j] == rule_keys[j]))"],
@@ -537,7 +545,9 @@ _TFV_AT = lambda lbl: ("forall(lambda k: implies(0 <= k, " + _TFV.format(k="k") 
 _OTHERS_SAME = ("forall(lambda k: implies(0 <= k and k != comb_class, " + _TFV.format(k="k") + " == old(" + _TFV.format(k="k") + ")))")
 contract(F, "TableMethod._increase_value", props=["C03"], lenient=True, aliases=FAL,
          params={"self": Obj("TableMethod"), "comb_class": Int, "rule_idx": Int},
-         requires=["comb_class >= 0", "self._gap_size >= 1", _NONNEG, _ROWS_APART, _PARENTS_OK, _SILE] + _IDX_WF,
+         requires=["comb_class >= 0", "0 <= rule_idx and rule_idx < len(self._rules)", "comb_class == self._rules[rule_idx].parent",
+                   "self._gap_size >= 1", _NONNEG, _ROWS_APART, _PARENTS_OK,
+                   _SILE] + _IDX_WF,
          may_raise=[], asserts="raise",
          ensures=_IDX_WF + [_SILE, "implies(called_after('Function.increase_value', 'TableMethod._increase_value'), "
                   "self._current_gap[0] == last_result('Function.preimage_gap'))",
@@ -640,10 +650,9 @@ _PQ_INV = _TBL_INV
 contract(F, "TableMethod._process_queue", props=["C03"], lenient=True, aliases=FAL,
          params={"self": Obj("TableMethod")},
          requires=_PQ_INV,
-         # IndexError: the queue and the holding set are not known to hold valid rule indices (a deque's items sit behind an offset,
-         # over which the solvers do not instantiate); AssertionError: the two asserts of _set_infinite need an invariant about the
-         # rules held back.  _increase_value itself is proved free of exceptions.
-         may_raise=["AssertionError", "IndexError"],
+         # free of exceptions: everything queued or held is a valid rule index, recorded positions have finite shifts, rules are
+         # held back only from above the gap (so the asserts of _set_infinite cannot fail here)
+         may_raise=[],
          call_requires={
              "TableMethod._increase_value": ["comb_class == " + _KEYOF + ".parent", _ALL_POS, _JUSTIFIED],
              "TableMethod._set_infinite": ["len(caller_self._processing_queue) == 0",
